@@ -127,9 +127,9 @@ func checkC12(c *hx.Ctx) {
 		perms[n] = permutations(n)
 	}
 	type cyc struct {
-		u   *Universe
-		ops []*ref.Op // cycle ops in chain order (last closes the cycle)
-		k   int
+		u    *Universe
+		ops  []*ref.Op // cycle ops in chain order (last closes the cycle)
+		k    int
 		kind string
 	}
 	var cycles []cyc
